@@ -229,6 +229,72 @@ func matchSpec(fn *ssa.Function, in ssa.Instruction, spec string, selSend map[*s
 		}
 		inside := inSliceLoopOverCall(fn, in.Block(), parts[1])
 		return inside == (kind == "call-in-loop-over")
+	case "literal-map-collect-call":
+		// a call of a function literal of this function that returns a slice it collected while ranging over
+		// a Go map, without sorting it
+		c, ok := in.(*ssa.Call)
+		return ok && isMapCollectingLiteralCall(fn, c)
+	case "uses-literal-result", "sorts-literal-result":
+		// an instruction that consumes (sorts) the result of such a call
+		fromLit := func(v ssa.Value) bool {
+			for d := 0; d < 4; d++ {
+				switch t := v.(type) {
+				case *ssa.Slice:
+					v = t.X
+					continue
+				case *ssa.ChangeType:
+					v = t.X
+					continue
+				}
+				break
+			}
+			c, ok := v.(*ssa.Call)
+			return ok && isMapCollectingLiteralCall(fn, c)
+		}
+		isSort := func(c *ssa.CallCommon) bool {
+			f := c.StaticCallee()
+			if f == nil || originOf(f).Pkg == nil {
+				return false
+			}
+			pk := originOf(f).Pkg.Pkg.Path()
+			return pk == "sort" || ((pk == "slices" || strings.HasSuffix(pk, "/slices")) && strings.HasPrefix(originOf(f).Name(), "Sort"))
+		}
+		switch t := in.(type) {
+		case ssa.CallInstruction:
+			c := t.Common()
+			if bi, ok := c.Value.(*ssa.Builtin); ok {
+				switch bi.Name() {
+				case "len", "cap":
+					return false
+				}
+			}
+			any := false
+			for _, a := range c.Args {
+				if fromLit(a) {
+					any = true
+				}
+			}
+			if !any {
+				return false
+			}
+			return isSort(c) == (kind == "sorts-literal-result")
+		case *ssa.Return:
+			if kind == "sorts-literal-result" {
+				return false
+			}
+			for _, r := range t.Results {
+				if fromLit(r) {
+					return true
+				}
+			}
+		case *ssa.Store:
+			return kind == "uses-literal-result" && fromLit(t.Val)
+		case *ssa.IndexAddr:
+			return kind == "uses-literal-result" && fromLit(t.X)
+		case *ssa.Index:
+			return kind == "uses-literal-result" && fromLit(t.X)
+		}
+		return false
 	case "map-range-call":
 		// a call of the named function or method inside a loop that ranges over a Go map
 		if c, ok := in.(*ssa.Call); ok {
@@ -721,6 +787,50 @@ func inSliceLoopOverCall(fn *ssa.Function, blk *ssa.BasicBlock, source string) b
 			}
 			if seen[blk] && blk != h {
 				return true
+			}
+		}
+	}
+	return false
+}
+
+// isMapCollectingLiteralCall: c calls a function literal of fn that appends to a slice inside a loop ranging
+// over a Go map, does not sort that slice, and returns it.
+func isMapCollectingLiteralCall(fn *ssa.Function, c *ssa.Call) bool {
+	lit := c.Call.StaticCallee()
+	if lit == nil || lit.Parent() != fn || lit.Blocks == nil {
+		return false
+	}
+	collected := map[string]bool{}
+	sorted := map[string]bool{}
+	for _, b := range lit.Blocks {
+		for _, in := range b.Instrs {
+			call, ok := in.(*ssa.Call)
+			if !ok {
+				continue
+			}
+			if bi, ok := call.Call.Value.(*ssa.Builtin); ok && bi.Name() == "append" && len(call.Call.Args) > 0 && inMapRangeLoop(lit, b) {
+				if n := rootName(lit, call.Call.Args[0], 0); n != "" {
+					collected[n] = true
+				}
+			}
+			if f := call.Call.StaticCallee(); f != nil && originOf(f).Pkg != nil {
+				pk := originOf(f).Pkg.Pkg.Path()
+				if pk == "sort" || ((pk == "slices" || strings.HasSuffix(pk, "/slices")) && strings.HasPrefix(originOf(f).Name(), "Sort")) {
+					for _, a := range call.Call.Args {
+						sorted[rootName(lit, a, 0)] = true
+					}
+				}
+			}
+		}
+	}
+	for _, b := range lit.Blocks {
+		for _, in := range b.Instrs {
+			if r, ok := in.(*ssa.Return); ok {
+				for _, v := range r.Results {
+					if n := rootName(lit, v, 0); collected[n] && !sorted[n] {
+						return true
+					}
+				}
 			}
 		}
 	}
